@@ -63,8 +63,9 @@ def _gen_t(r):
 
 
 def gen_case(r, index, tier):
-    desc = designs.gen_allocation(r, offsets=True)
-    n = r.randint(1, 8)
+    deep = tier == "thorough"
+    desc = designs.gen_allocation(r, offsets=True, max_cells=16 if deep else 10)
+    n = r.randint(1, 14 if deep else 8)
     ops = []
     for _ in range(n):
         k = r.below(100)
